@@ -15,8 +15,8 @@ mkdir -p "$B"
 if [ -f Model.vo ]; then
   if [ ! -f "$B/model.ml" ] || [ Model.vo -nt "$B/model.ml" ] || [ Extract.v -nt "$B/model.ml" ] || [ "$V/ocaml/driver.ml" -nt "$B/modelrun" ]; then
     ( cd "$B" && cp "$V/coq/$D/Extract.v" . && \
-      LP=$(grep -o -- '-Q \. [A-Za-z_0-9.]*' "$V/coq/$D/_CoqProject" | awk '{print $3}') && \
-      timeout 600 coqc -Q "$V/coq/lib" GVL -Q "$V/coq/gen" GVG -Q "$V/coq/$D" "$LP" Extract.v >extract.log 2>&1 && \
+      QARGS=$(grep -- '^-Q' "$V/coq/$D/_CoqProject" | while read q p l; do echo "-Q $(cd "$V/coq/$D" && cd "$p" && pwd) $l"; done | tr '\n' ' ') && \
+      timeout 600 coqc $QARGS Extract.v >extract.log 2>&1 && \
       cp "$V/ocaml/driver.ml" . && rm -f model.mli && \
       timeout 600 ocamlfind ocamlopt -O3 -w -a model.ml driver.ml -o modelrun >>extract.log 2>&1 || \
       timeout 600 ocamlfind ocamlopt -w -a model.ml driver.ml -o modelrun >>extract.log 2>&1 ) || { echo "extraction/ocaml build failed for $D" >&2; rc=3; }
